@@ -105,7 +105,10 @@ package netpoll
 //@   modifies op.detached, FDOperator.state
 
 //@ func (*connection).closeCallback
-//@   property C05 C06 C09
+//@   property C05 C06 C09 C10
+//@   note the slot may belong to another connection once the holder of the processing lock has run the finalizer: a closer that lost the
+//@   note race for the lock must not touch c.operator any more (C10)
+//@   ghost before call (*FDOperator).Control#1: assert c.heldP
 //@   requires cinv(c)
 //@   requires !needLock ==> c.heldP && !c.sealed_heldP
 //@   requires c.keychain[closing] != 0
@@ -124,7 +127,7 @@ package netpoll
 //@   loop 1 invariant c.heldC == old(c.heldC) && c.heldF == old(c.heldF)
 
 //@ func (*connection).onClose
-//@   property C05 C12
+//@   property C05 C10 C12
 //@   requires cinv(c) && (c.sealed_heldP ==> c.heldP)
 //@   rely locker.keychain[closing]: (was != 0 ==> now != 0) && now >= 0 && now <= 2
 //@   ensures result == nil && cinv(c) && c.keychain[closing] != 0 && (c.sealed_heldP ==> c.heldP)
@@ -137,7 +140,9 @@ package netpoll
 //@   ghost at entry: ocTrigR = false; ocTrigW = false
 //@   ghost after call (*connection).triggerRead#1: ocTrigR = true
 //@   ghost after call (*connection).triggerWrite#1: ocTrigW = true
-//@   ghost before call (*connection).closeCallback#1: assert ocTrigR && ocTrigW
+//@   note a user close always deregisters the descriptor from the poller (closing the number does not: a duplicate keeps the registration
+//@   note alive, and its events would be dispatched through the recycled slot to the slot's next owner, C10)
+//@   ghost before call (*connection).closeCallback#1: assert ocTrigR && ocTrigW; assert arg2
 
 //@ func (*connection).Close
 //@   property C05 C12
@@ -562,8 +567,11 @@ package netpoll
 //@   ensures setupdone(c)
 //@   modifies world, c.heldP, c.sealed_heldP, cbRuns, ocTrigR, ocTrigW
 //@ func (*connection).onPrepare
-//@   property C09
+//@   property C05 C09
 //@   requires cinv(c) && c.operator.poll != nil && c.operator.owned && !c.heldP && !c.heldC && !c.sealed_heldP
+//@   note OnPrepare, a failing registration or an early hang-up may close the connection: the finalizer (descriptor, slot, buffers) must
+//@   note already be on the callback list, or that teardown runs the list without it and nothing ever frees them (C05)
+//@   requires c.closeCallbacks.v != nil
 //@   threadlocal !prepDone && !prepRegistered
 //@   ensures prepRegistered ==> prepOK
 //@   ensures setupdone(c)
